@@ -138,10 +138,135 @@ def make_dbs(rng, Q, U, structure, ndb):
     return [s for s in out if s]
 
 
-FLAVOURS = ["equal", "finer", "coarser", "mixed", "equal", "coarser", "cli", "peek"]
+FLAVOURS = ["equal", "finer", "coarser", "mixed", "equal", "coarser", "cli", "peek", "boundary"]
+
+
+def gen_boundary_case(rng, force_mode=None):
+    """thresholds lying EXACTLY on the size of what is still unassigned: the query is cut into blocks of strictly
+    decreasing size B_1 > B_2 > ... > B_k (plus, sometimes, hashes no sketch holds), sketch D_j holds block B_j
+    (and noise), so greedy reports D_1, D_2, ... and the unassigned part before round r is B_{r+1} + ... + B_k;
+    threshold_bp = (that size) * scaled for a round r (0 = the whole query, k-1 = the last block, which D_k covers
+    completely), sometimes +-1.  Query at least as coarse as the database (no D6), every mode."""
+    lines = []
+    s1, s2, s3 = rng.choice(SCALED_TRIPLES)
+    sq = rng.choice([s1, s2, s3])
+    sd = sq if rng.random() < 0.7 else rng.choice([x for x in (s1, s2, s3) if x <= sq])
+    M = mh_for_scaled(sq)
+    Md = mh_for_scaled(sd)
+    k = rng.choice([1, 1, 2, 2, 3, 4])
+    sizes = sorted(rng.sample(range(1, 14), k), reverse=True)
+    rest = rng.choice([0, 0, 0, 1, 3])              # query hashes no sketch holds
+    need = sum(sizes) + rest
+    pool = set()
+    for d in (0, -1, -2):
+        if M + d >= 1 and rng.random() < 0.5:
+            pool.add(M + d)                          # hashes on the query's threshold
+    while len(pool) < need + 12:
+        pool.add(rng.randint(0, M))
+    pool = sorted(pool)
+    rng.shuffle(pool)
+    blocks, at = [], 0
+    for n in sizes:
+        blocks.append(set(pool[at:at + n]))
+        at += n
+    unheld = set(pool[at:at + rest])
+    at += rest
+    noise_lo = pool[at:]
+    Q = set().union(*blocks) | unheld
+    track = rng.random() < 0.4
+    abund = {h: rng.choice([1, 1, 2, 3, 7, 50]) for h in Q} if track else None
+    lines.append(sig_line(0, 1000, sq, Q, abund))
+    sk = []
+    for j, B in enumerate(blocks):
+        hs = set(B) | set(rng.sample(noise_lo, rng.randint(0, min(3, len(noise_lo)))))
+        if Md > M and rng.random() < 0.5:
+            hs |= {rng.randint(M + 1, Md) for _ in range(rng.randint(1, 3))}     # dropped when downsampled to sq
+        if j > 0 and rng.random() < 0.3:
+            hs |= set(rng.sample(sorted(blocks[j - 1]), 1))                       # overlaps an earlier block
+        tr_ab = {h: rng.randint(1, 9) for h in hs} if rng.random() < 0.2 else None
+        lines.append(sig_line(1 + j, 1 + j, sd, hs, tr_ab))
+        sk.append(1 + j)
+    if rng.random() < 0.4:                           # a decoy: a strict part of the last block
+        B = sorted(blocks[-1])
+        if len(B) > 1:
+            lines.append(sig_line(1 + len(sk), 1 + len(sk), sd, set(B[:len(B) - 1])))
+            sk.append(1 + len(sk))
+    ndbs = rng.choice([1, 1, 2, 3])
+    order = list(sk)
+    rng.shuffle(order)
+    parts = [p for p in (order[i::ndbs] for i in range(ndbs)) if p]
+    for d, p in enumerate(parts):
+        lines.append(f"db {d} " + " ".join(str(x) for x in p))
+    nd = len(parts)
+    r = rng.randrange(k)
+    remaining = sum(sizes[r:]) + rest                # unassigned hashes before round r
+    base = rng.choice([remaining, remaining, remaining, sizes[r]])
+    thr = max(0, base * sq + rng.choice([0, 0, 0, 0, -1, 1]))
+    ign = int(rng.random() < 0.35)
+    mode = force_mode or rng.choice(["prefetch", "ondemand", "ondemand", "both", "cli"])
+    cs = []
+    for d in range(nd):
+        kind = mode if mode != "both" else rng.choice(["prefetch", "ondemand"])
+        if kind in ("prefetch", "cli"):
+            lines.append(f"cg {d} {d} 0 {thr}")
+            cs.append(f"c{d}")
+        else:
+            cs.append(f"i{d}")
+    noid, ident = "-", "-"
+    if mode == "cli":
+        lines.append("split 60 61 0 " + " ".join(c[1:] for c in cs))
+        noid, ident = "61", "60"
+    lines.append(f"gd 0 {thr} {ign} {noid} {ident} " + " ".join(cs))
+    for _ in range(len(sk) + 2):
+        lines.append("next")
+    return lines
+
+
+FILE_KINDS = ["sig", "zip", "dir", "multi", "pl", "mf", "sbt", "sql", "lca"]
+
+
+def gen_cli_case(rng, i):
+    """a case for the in-process command-line slice of the quick tier and the options `sourmash gather` /
+    `multigather` are run with (-> (case lines, opts)): prefetch and --no-prefetch, boundary thresholds, --scaled,
+    abundance queries, -o, --save-matches, --output-unassigned, --save-prefetch, --create-empty-results,
+    --linear / --no-linear, several collections of different kinds at once"""
+    mode = ["cli", "ondemand"][i % 2]
+    fl = ["equal", "boundary", "finer", "boundary", "equal", "coarser"][i % 6]
+    for _ in range(20):
+        case = gen_boundary_case(rng, force_mode=mode) if fl == "boundary" else gen_case(rng, fl, force_mode=mode)
+        sigs, dbs = parse_case(case)
+        if any(dbs.values()):
+            break
+    opts = {"save_matches": i % 2 == 0, "save_prefetch": i % 4 < 2, "create_empty": i % 3 != 0,
+            "linear": [None, True, False][i % 3], "explicit_prefetch": i % 5 == 0}
+    if i % 3 == 1:
+        kinds = {}
+        for slot, members in dbs.items():
+            if not members:
+                continue
+            flat = all(not sigs[m]["track"] for m in members)
+            one_scaled = len({sigs[m]["scaled"] for m in members}) == 1
+            ks = [x for x in FILE_KINDS if (x not in ("sql", "lca") or flat) and (x != "lca" or one_scaled)]
+            kinds[str(slot)] = rng.choice(ks)
+        opts["kinds"] = kinds
+    q = sigs[0]
+    if i % 6 == 4 and q["scaled"] > 1:
+        # `--scaled`: the file holds a finer copy of the query (scaled 1: the hashes plus some above the query's
+        # threshold, which the command's downsampling must drop)
+        M = mh_for_scaled(q["scaled"])
+        extra = {rng.randint(M + 1, U64) for _ in range(rng.randint(1, 6))}
+        hs = dict(q["hashes"])
+        for h in extra:
+            hs[h] = rng.randint(1, 5)
+        case = case[:1] + [sig_line(70, 1000, 1, set(hs), hs if q["track"] else None)] + case[1:]
+        opts["scaled"] = q["scaled"]
+        opts["query_slot"] = 70
+    return case, opts
 
 
 def gen_case(rng, flavour, force_mode=None):
+    if flavour == "boundary":
+        return gen_boundary_case(rng, force_mode)
     lines = []
     s1, s2, s3 = rng.choice(SCALED_TRIPLES)
     if flavour in ("equal", "cli", "peek") and rng.random() < 0.8:
